@@ -270,13 +270,13 @@ pub fn default_val(form: u64, salt: u64) -> Val {
         FORM_STRX4 => Val::Strx(0xf3_0201_00 + salt),
         FORM_UDATA => Val::Int(0x3f80 + salt),
         FORM_DATA1 => Val::Int(0xa0 + (salt & 0xf)),
-        FORM_DATA2 => Val::Int(0xa100 + salt),
+        FORM_DATA2 => Val::Int(0xa100 + (salt & 0xfff)),
         FORM_DATA4 => Val::Int(0xa2_0304_00 + salt),
         FORM_DATA8 => Val::Int(0xa3_0405_0607_0800 + salt),
         FORM_DATA16 => {
             let mut b = [0u8; 16];
             for (i, x) in b.iter_mut().enumerate() {
-                *x = (0x10 * (salt as u8 + 1)).wrapping_add(i as u8);
+                *x = 0x10u8.wrapping_mul((salt as u8).wrapping_add(1)).wrapping_add(i as u8);
             }
             Val::Data16(b)
         }
